@@ -139,9 +139,11 @@ ModeAmbiguous(c) ==
     \/ c.t # "energy_transfer" /\ (c.o = "energy" \/ c.t = "energy") /\ Cardinality(Inelastic(c)) >= 1
 
 (* the refusal is demanded by the property only where answering would mean a wrong mode;    *)
-(* for a pure geometry target (mode-independent) answering from the beamline graph is also  *)
-(* an admissible behaviour (DESIGN 3.4: never demand more than the property states)         *)
-RefusalOptional(c) == ModeAmbiguous(c) /\ c.t \in GeometryTargets /\ c.s
+(* for a pure geometry target (mode-independent) answering from the beamline graph of the   *)
+(* requested scatter flag is also an admissible behaviour (DESIGN 3.4: never demand more    *)
+(* than the property states)                                                                *)
+RefusalOptional(c) == ModeAmbiguous(c) /\ c.t \in GeometryTargets
+AltTag(c) == IF c.s THEN "beamline" ELSE "no_scatter"
 
 (* conversion_graph(origin, target, scatter, energy_mode) *)
 GraphTagFor(o, t, s, mode) ==
